@@ -131,7 +131,15 @@ type HV struct {
 	Entries  [][2]HV
 	To       *HV
 	Opaque   string // func chan complex array
+	Named    bool   // the Go type is a DEFINED type over the kind (type Level string, type Code int, ...): same value to a script
 }
+
+// defined types over the basic kinds, as hosts declare them (`type Level string`)
+type namedStr string
+type namedInt int
+type namedInt64 int64
+type namedFloat float64
+type namedBool bool
 
 type HField struct {
 	Name     string
@@ -209,6 +217,21 @@ var ifaceType = reflect.TypeOf((*interface{})(nil)).Elem()
 
 // goType returns the static Go type used for a value of this description.
 func (h HV) goType() reflect.Type {
+	if h.Named {
+		switch h.Kind {
+		case "str":
+			return reflect.TypeOf(namedStr(""))
+		case "int":
+			if h.IntKind == "int64" {
+				return reflect.TypeOf(namedInt64(0))
+			}
+			return reflect.TypeOf(namedInt(0))
+		case "f64":
+			return reflect.TypeOf(namedFloat(0))
+		case "bool":
+			return reflect.TypeOf(namedBool(false))
+		}
+	}
 	switch h.Kind {
 	case "nil":
 		return ifaceType
@@ -389,6 +412,7 @@ func (f HostFn) Sexp() string {
 type Run struct {
 	Obj   HV
 	Polls int // -1: never cancelled; k: Done() reports cancellation from its k-th call (0-based) on
+	Fns   []HostFn `json:",omitempty"` // functions the host registers (again) with AddFunction just before this run
 }
 
 type Case struct {
@@ -438,7 +462,15 @@ func (c *Case) Sexp() string {
 	}
 	sb.WriteString(" (runs")
 	for _, r := range c.Runs {
-		fmt.Fprintf(&sb, " (run %s %d)", r.Obj.Sexp(), r.Polls)
+		if len(r.Fns) > 0 {
+			fmt.Fprintf(&sb, " (run %s %d (fns", r.Obj.Sexp(), r.Polls)
+			for _, f := range r.Fns {
+				sb.WriteString(" " + f.Sexp())
+			}
+			sb.WriteString("))")
+		} else {
+			fmt.Fprintf(&sb, " (run %s %d)", r.Obj.Sexp(), r.Polls)
+		}
 	}
 	sb.WriteString("))")
 	return sb.String()
